@@ -457,13 +457,14 @@ func (r *Router) RunHandlers(ctx context.Context) error {
 
 		verifhook.At("router.life.rh.subscribed", name)
 		h.messagesCh = messages
+
+		h.stopFn = cancel
+		h.stopped = make(chan struct{})
+
 		h.started = true
 		verifhook.At("router.life.rh.close_started", name)
 		close(h.startedCh)
 		verifhook.At("router.life.rh.started", name)
-
-		h.stopFn = cancel
-		h.stopped = make(chan struct{})
 
 		verifhook.At("router.life.rh.spawn", name)
 		go func() {
